@@ -16,13 +16,21 @@ DRIVERS["D7"] = dict(setup="settled", channels=[C.chan("m", negotiated=0)],
 DRIVERS["D12"] = dict(setup="settled", sseq={"w": 65534}, channels=[C.chan("w", negotiated=0)],
                       script=[[("send", "A", "w", C.pay("w", i, 100 if i != 1 else 1300)) for i in range(4)]])
 
+# D2's traffic with both TSN spaces about to wrap (a retransmitted chunk from before the wrap arrives after chunks from after it)
+DRIVERS["D14"] = dict(DRIVERS["D2"], tsn={"A": 2 ** 32 - 2, "B": 2 ** 32 - 3})
+# a reliable channel sharing the association with a partially reliable one whose message is larger than the congestion
+# window: abandoning it (fragments never transmitted included) must not leave anything behind that stalls the reliable one
+from props import c06 as _c06     # noqa: E402
+DRIVERS["D15"] = _c06.DRIVERS["P7"]
+DRIVERS["D16"] = _c06.DRIVERS["P3"]
+
 
 def scenario(name):
     return C.make_factory(DRIVERS[name]), C.SctpOracle(safety=True, liveness=True, do_probe=True, probe_n=4), C.default_signature
 
 
-QUICK = [("D5s", 2), ("D5", 2), ("D6", 2), ("D4", 2), ("D2", 2), ("D1", 1), ("D3", 2), ("D7", 2), ("D12", 2)]
-THOROUGH = [("D5s", 3), ("D5", 3), ("D6", 3), ("D4", 3), ("D2", 3), ("D1", 2), ("D3", 3), ("D7", 3), ("D12", 3)]
+QUICK = [("D5s", 2), ("D5", 2), ("D6", 2), ("D4", 2), ("D2", 2), ("D1", 1), ("D3", 2), ("D7", 2), ("D12", 2), ("D14", 2), ("D15", 2), ("D16", 2)]
+THOROUGH = [("D5s", 3), ("D5", 3), ("D6", 3), ("D4", 3), ("D2", 3), ("D1", 2), ("D3", 3), ("D7", 3), ("D12", 3), ("D14", 3), ("D15", 3), ("D16", 3)]
 
 
 def run(tier, seed):
